@@ -6,7 +6,7 @@ if/elif/else ladders, tuple (un)packing, `return`).  Everything else raises Unsu
 Gen file of that target is then written as a stub that does NOT define the names the theorems
 mention -- so the dependent obligations stop compiling (fail closed).
 """
-import ast, os, sys, textwrap, hashlib
+import ast, re, os, sys, textwrap, hashlib
 
 REPO = os.environ.get('VERIF_REPO', '/repo')
 SRC = os.path.join(REPO, 'src', 'sequence_jacobian')
@@ -757,7 +757,14 @@ def t_block():
         src = ast.unparse(find_def('blocks/block.py', q)).replace('(', '').replace(')', '')
         facts[q.split('.')[1] + '_saved_guard_covers_request'] = guard in src
     jac = ast.unparse(find_def('blocks/block.py', 'Block.jacobian'))
-    facts['jacobian_copies_Js_before_writing'] = jac.find('Js = Js.copy()') != -1 and jac.find('Js = Js.copy()') < jac.find('Js[self.name] = self.M.inv @ Js[self.name]')
+    def copies_first(src):
+        return src.find('Js = Js.copy()') != -1 and src.find('Js = Js.copy()') < src.find('Js[self.name] = self.M.inv @ Js[self.name]')
+    try:
+        own = ast.unparse(find_def('blocks/block.py', 'Block.remap_own_J'))
+    except Unsupported:
+        own = ''
+    # either jacobian copies the caller's dict itself, or (after the repair of D30) every method that needs the block's own saved J in internal names goes through remap_own_J, which copies before writing
+    facts['jacobian_copies_Js_before_writing'] = copies_first(jac) or (copies_first(own) and 'Js = self.remap_own_J(Js)' in jac and not re.search(r'Js\[[^\]]*\]\s*=[^=]', jac))
     cb = 'blocks/combined_block.py'
     facts['combined_steady_state_forwards_options'] = 'block.steady_state(ss, dissolve=inner_dissolve, **kwargs)' in ast.unparse(find_def(cb, 'CombinedBlock._steady_state'))
     cin = ast.unparse(find_def(cb, 'CombinedBlock._impulse_nonlinear'))
